@@ -53,7 +53,7 @@ CHECKS["C10"] = {
     ],
 }
 
-def _srv(pid, claim, rule, note, quick_checks=3000, thorough_checks=40000, size=120, extra_assumptions=None):
+def _srv(pid, claim, rule, note, quick_checks=3000, thorough_checks=12000, size=80, extra_assumptions=None):
     return {
         "level": "exploration",
         "claim": claim,
@@ -113,7 +113,7 @@ CHECKS["C05"] = _srv(
     "non-trivial = relayed (not dropped) and the payload length is not a multiple of 4, or within the 1480..1720 buffer zone, or "
     "the content imitates a TURN header",
     _SRV_NOTE + " Stream (TCP control connection) transport between client and server is covered by the C10 framer check and the C16 world.",
-    quick_checks=2500, thorough_checks=25000, size=60)
+    quick_checks=2500, thorough_checks=8000, size=50)
 
 CHECKS["C06"] = _srv(
     "C06",
@@ -171,15 +171,15 @@ CHECKS["C03"] = _srv(
 CHECKS["C02"]["stages"].append(
     {"name": "tcp-inbound", "pkg": "srvworld", "run": "^TestC02TCP$",
      "quick": {"shards": 2, "checks": 2000, "timeout_s": 420},
-     "thorough": {"shards": 8, "checks": 20000, "size": 50, "timeout_s": 2400}})
+     "thorough": {"shards": 8, "checks": 6000, "size": 40, "timeout_s": 2400}})
 CHECKS["C15"]["stages"].append(
     {"name": "tcp-teardown", "pkg": "srvworld", "run": "^TestC15TCP$",
      "quick": {"shards": 2, "checks": 2000, "timeout_s": 420},
-     "thorough": {"shards": 8, "checks": 20000, "size": 50, "timeout_s": 2400}})
+     "thorough": {"shards": 8, "checks": 6000, "size": 40, "timeout_s": 2400}})
 CHECKS["C04"]["stages"].append(
     {"name": "tcp-isolation", "pkg": "srvworld", "run": "^TestC04TCP$",
      "quick": {"shards": 2, "checks": 2000, "timeout_s": 420},
-     "thorough": {"shards": 8, "checks": 20000, "size": 50, "timeout_s": 2400}})
+     "thorough": {"shards": 8, "checks": 6000, "size": 40, "timeout_s": 2400}})
 CHECKS["C03"]["stages"].append(
     {"name": "nonce-managers", "pkg": "pure", "run": "^TestC03Nonce$",
      "quick": {"shards": 2, "checks": 600, "timeout_s": 300},
@@ -187,7 +187,7 @@ CHECKS["C03"]["stages"].append(
 CHECKS["C03"]["stages"].append(
     {"name": "tcp-ownership", "pkg": "srvworld", "run": "^TestC03TCP$",
      "quick": {"shards": 2, "checks": 2000, "timeout_s": 420},
-     "thorough": {"shards": 8, "checks": 20000, "size": 50, "timeout_s": 2400}})
+     "thorough": {"shards": 8, "checks": 6000, "size": 40, "timeout_s": 2400}})
 
 CHECKS["C20"] = {
     "level": "exploration",
@@ -265,7 +265,7 @@ CHECKS["C16"] = {
     "stages": [
         {"name": "tcpworld", "pkg": "srvworld", "run": "^TestC16$",
          "quick": {"shards": 4, "checks": 2500, "timeout_s": 420},
-         "thorough": {"shards": 16, "checks": 30000, "size": 60, "timeout_s": 2400}},
+         "thorough": {"shards": 16, "checks": 10000, "size": 50, "timeout_s": 2400}},
     ],
 }
 
@@ -287,10 +287,10 @@ CHECKS["C09"] = {
     "stages": [
         {"name": "udp-listener", "pkg": "srvworld", "run": "^TestC09$",
          "quick": {"shards": 3, "checks": 2500, "timeout_s": 420},
-         "thorough": {"shards": 16, "checks": 30000, "size": 60, "timeout_s": 2400}},
+         "thorough": {"shards": 16, "checks": 10000, "size": 50, "timeout_s": 2400}},
         {"name": "stream-listener", "pkg": "srvworld", "run": "^TestC09Stream$",
          "quick": {"shards": 3, "checks": 1500, "timeout_s": 420},
-         "thorough": {"shards": 16, "checks": 20000, "size": 50, "timeout_s": 2400}},
+         "thorough": {"shards": 16, "checks": 8000, "size": 40, "timeout_s": 2400}},
         {"name": "client-inbound", "pkg": "cliworld", "run": "^TestC09Client$",
          "quick": {"shards": 3, "checks": 1500, "timeout_s": 420},
          "thorough": {"shards": 16, "checks": 20000, "timeout_s": 2400}},
@@ -360,7 +360,7 @@ CHECKS["C18"] = {
     "stages": [
         {"name": "storm-race", "pkg": "srvworld", "run": "^TestC18Storm$", "race": True,
          "quick": {"shards": 4, "checks": 150, "timeout_s": 500},
-         "thorough": {"shards": 16, "checks": 3000, "timeout_s": 3000}},
+         "thorough": {"shards": 16, "checks": 1200, "timeout_s": 3000}},
         {"name": "tcp-race", "pkg": "srvworld", "run": "^TestC18TCP$", "race": True,
          "quick": {"shards": 2, "checks": 300, "timeout_s": 500},
          "thorough": {"shards": 8, "checks": 5000, "size": 40, "timeout_s": 3000}},
